@@ -201,7 +201,7 @@ def workload(tier, rng, shard, nshards, work):
         per_data = 6 if tier == "quick" else len(variants)
         vi = shard * 7
         for i in range(n):
-            data, _cl = tggen.gen_textgrid(rng, keywords=(i % 6 == 5), min_gap=0, scale_class=rng.choice(["normal", "normal", "tiny", "big", "epoch"]),
+            data, _cl = tggen.gen_textgrid(rng, keywords=(i % 6 == 5), min_gap=0, scale_class=rng.choice(["normal", "normal", "tiny", "big", "epoch", "negative"]),
                                            full_span=rng.choice([True, True, None]), ws_labels=True)
             spec = tggen.to_spec(data)
             dup = i % 7 == 3 and len(spec["tiers"]) >= 2
